@@ -90,11 +90,11 @@ package snps
 //@   loop 1:
 //@     invariant !gErrSeen && len(recvd(cErr)) == 0
 //@   loop 2:
-//@     invariant !gErrSeen && len(recvd(cErr)) == 0 && len(recvd(cFRDone)) == 0
+//@     invariant !gErrSeen && len(recvd(cErr)) == 0 && 0 <= n && n <= 1 && len(recvd(cFRDone)) + n == 1
 //@   loop 3:
-//@     invariant !gErrSeen && len(recvd(cErr)) == 0 && len(recvd(cFRDone)) == 1 && len(recvd(cSNPsDone)) == 0
+//@     invariant !gErrSeen && len(recvd(cErr)) == 0 && len(recvd(cFRDone)) == 1 && 0 <= n && n <= 1 && len(recvd(cSNPsDone)) + n == 1
 //@   loop 4:
-//@     invariant !gErrSeen && len(recvd(cErr)) == 0 && len(recvd(cFRDone)) == 1 && len(recvd(cSNPsDone)) == 1 && len(recvd(cWriteDone)) == 0
+//@     invariant !gErrSeen && len(recvd(cErr)) == 0 && len(recvd(cFRDone)) == 1 && len(recvd(cSNPsDone)) == 1 && 0 <= n && n <= 1 && len(recvd(cWriteDone)) + n == 1
 //@   before return#3: do gErrSeen = true
 //@   before return#4: do gErrSeen = true
 //@   before return#5: do gErrSeen = true
